@@ -59,10 +59,10 @@ package smtp
 // ---------------------------------------------------------------------------------------
 
 //@ contract (*Conn).reset(c)
-//@   prop C03 C05 C06 C07 C08
+//@   prop C03 C05 C06 C07 C08 C13
 //@   requires connWF(c) && sessOK(c)
 //@   modifies c.bdatPipe, c.bdatStatus, c.bytesReceived, c.fromReceived, c.recipients, c.cbReset, c.bdatPipe.state
-//@   ensures tx-discarded: !c.fromReceived && len(c.recipients) == 0 && c.bdatPipe == nil && c.bdatStatus == nil && c.bytesReceived == 0
+//@   ensures tx-discarded-and-status-collector-dropped: !c.fromReceived && len(c.recipients) == 0 && c.bdatPipe == nil && c.bdatStatus == nil && c.bytesReceived == 0
 //@   ensures @C07 pipe-not-left-open: old(c.bdatPipe) != nil ==> old(c.bdatPipe).state != 0 && (old(old(c.bdatPipe).state) == 0 ==> old(c.bdatPipe).state == 1)
 //@   ensures @C03 reset-signalled: c.cbReset == old(c.cbReset) + (c.session != nil ? 1 : 0)
 
@@ -196,6 +196,12 @@ package smtp
 //@   before Session.Mail: @C11 ret-is-the-upper-cased-value-or-empty: (has(args, "RET") ==> $2.Return == upperOf(args["RET"])) && (!has(args, "RET") ==> $2.Return == "")
 //@   before Session.Mail: @C11 envid-is-the-decoded-value-or-empty: (has(args, "ENVID") ==> $2.EnvelopeID == xtextDec(args["ENVID"])) && (!has(args, "ENVID") ==> $2.EnvelopeID == "")
 //@   before Session.Mail: @C11 auth-set-iff-present: ($2.Auth != nil) == has(args, "AUTH")
+//@   before Session.Mail: @C11 path-was-accepted-by-the-parser: resultof("(*parser).parseReversePath", 1, 2) == nil && resultof("parseArgs", 1, 2) == nil
+//@   before Session.Mail: @C11 size-was-well-formed: has(args, "SIZE") ==> puOK(args["SIZE"], 10, 32)
+//@   before Session.Mail: @C11 body-value-is-a-known-one: has(args, "BODY") ==> upperOf(args["BODY"]) == "7BIT" || upperOf(args["BODY"]) == "8BITMIME" || upperOf(args["BODY"]) == "BINARYMIME"
+//@   before Session.Mail: @C11 ret-value-is-a-known-one: has(args, "RET") ==> upperOf(args["RET"]) == "FULL" || upperOf(args["RET"]) == "HDRS"
+//@   before Session.Mail: @C11 envid-was-well-formed: has(args, "ENVID") ==> xtextDecOK(args["ENVID"]) && xtextDec(args["ENVID"]) != "" && printableASCII(xtextDec(args["ENVID"]))
+//@   before Session.Mail: @C11 auth-was-well-formed: has(args, "AUTH") ==> xtextDecOK(args["AUTH"]) && xtextDec(args["AUTH"]) != "" && (xtextDec(args["AUTH"]) == "<>" ==> deref($2.Auth) == "")
 //@   before Session.Mail: @C11 only-known-parameters: forall k: string :: has(args, k) ==> k == "SIZE" || k == "SMTPUTF8" || k == "REQUIRETLS" || k == "BODY" || k == "RET" || k == "ENVID" || k == "AUTH"
 //@   before (*Conn).writeResponse: @C12 refused-504-only-if-disabled: $1 == 504 ==> (key == "SMTPUTF8" && !c.server.EnableSMTPUTF8) || (key == "REQUIRETLS" && !c.server.EnableREQUIRETLS) || (key == "BODY" && !c.server.EnableBINARYMIME) || ((key == "RET" || key == "ENVID") && !c.server.EnableDSN)
 //@   loop 1:
@@ -209,6 +215,11 @@ package smtp
 //@     invariant @C11 ret: (itvisited("RET") ==> opts.Return == upperOf(args["RET"])) && (!itvisited("RET") ==> opts.Return == "")
 //@     invariant @C11 envid: (itvisited("ENVID") ==> opts.EnvelopeID == xtextDec(args["ENVID"])) && (!itvisited("ENVID") ==> opts.EnvelopeID == "")
 //@     invariant @C11 auth: (opts.Auth != nil) == itvisited("AUTH")
+//@     invariant @C11 sizeok: itvisited("SIZE") ==> puOK(args["SIZE"], 10, 32)
+//@     invariant @C11 bodyok: itvisited("BODY") ==> upperOf(args["BODY"]) == "7BIT" || upperOf(args["BODY"]) == "8BITMIME" || upperOf(args["BODY"]) == "BINARYMIME"
+//@     invariant @C11 retok: itvisited("RET") ==> upperOf(args["RET"]) == "FULL" || upperOf(args["RET"]) == "HDRS"
+//@     invariant @C11 envidok: itvisited("ENVID") ==> xtextDecOK(args["ENVID"]) && xtextDec(args["ENVID"]) != "" && printableASCII(xtextDec(args["ENVID"]))
+//@     invariant @C11 authok: itvisited("AUTH") ==> xtextDecOK(args["AUTH"]) && xtextDec(args["AUTH"]) != "" && opts.Auth != nil && (xtextDec(args["AUTH"]) == "<>" ==> deref(opts.Auth) == "")
 //@     invariant @C11 known: forall k: string :: itvisited(k) ==> k == "SIZE" || k == "SMTPUTF8" || k == "REQUIRETLS" || k == "BODY" || k == "RET" || k == "ENVID" || k == "AUTH"
 //@     invariant args != nil && (forall k: string :: itvisited(k) ==> has(args, k))
 
@@ -224,12 +235,26 @@ package smtp
 //@   ensures @C03 limit-refused-without-callback: c.server.MaxRecipients > 0 && len(old(c.recipients)) >= c.server.MaxRecipients ==> c.cbRcpt == old(c.cbRcpt)
 //@   ensures @C03 refused-without-callback-is-4xx-5xx: c.cbRcpt == old(c.cbRcpt) ==> c.lastCode >= 400 && c.lastCode <= 599
 //@   before (*Conn).writeResponse: @C12 refused-504-only-if-disabled: $1 == 504 ==> ((key == "NOTIFY" || key == "ORCPT") && !c.server.EnableDSN) || (key == "RRVS" && !c.server.EnableRRVS)
+//@   before Session.Rcpt: @C11 mailbox-as-parsed-from-this-line: $1 == resultof("(*parser).parsePath", 1, 1) && $1 == recipient
+//@   before Session.Rcpt: @C11 path-was-accepted-by-the-parser: resultof("(*parser).parsePath", 1, 2) == nil && resultof("parseArgs", 1, 2) == nil
+//@   before Session.Rcpt: @C11 fresh-options-object: $2 == opts && !wasalloc($2)
+//@   before Session.Rcpt: @C11 orcpt-is-the-decoded-value-or-empty: (has(args, "ORCPT") ==> taOK(args["ORCPT"]) && $2.OriginalRecipientType == taType(args["ORCPT"]) && $2.OriginalRecipient == taAddr(args["ORCPT"]) && taAddr(args["ORCPT"]) != "") && (!has(args, "ORCPT") ==> $2.OriginalRecipientType == "" && $2.OriginalRecipient == "")
+//@   before Session.Rcpt: @C11 rrvs-is-the-decoded-time-or-zero: (has(args, "RRVS") ==> rrvsOK(args["RRVS"]) && $2.RequireRecipientValidSince == rrvsVal(args["RRVS"])) && (!has(args, "RRVS") ==> $2.RequireRecipientValidSince == zeroof("time.Time"))
+//@   before Session.Rcpt: @C11 notify-is-the-upper-cased-list-or-empty: (has(args, "NOTIFY") ==> notifyIs($2.Notify, args["NOTIFY"]) && notifySetOK($2.Notify)) && (!has(args, "NOTIFY") ==> len($2.Notify) == 0)
+//@   before Session.Rcpt: @C11 only-known-parameters: forall k: string :: has(args, k) ==> k == "NOTIFY" || k == "ORCPT" || k == "RRVS"
 //@   loop 1:
 //@     invariant opts != nil && !old(alloc(opts))
 //@     invariant c.replies == old(c.replies) && c.cbRcpt == old(c.cbRcpt)
+//@     invariant @C11 orcpt: (itvisited("ORCPT") ==> taOK(args["ORCPT"]) && opts.OriginalRecipientType == taType(args["ORCPT"]) && opts.OriginalRecipient == taAddr(args["ORCPT"]) && taAddr(args["ORCPT"]) != "") && (!itvisited("ORCPT") ==> opts.OriginalRecipientType == "" && opts.OriginalRecipient == "")
+//@     invariant @C11 rrvs: (itvisited("RRVS") ==> rrvsOK(args["RRVS"]) && opts.RequireRecipientValidSince == rrvsVal(args["RRVS"])) && (!itvisited("RRVS") ==> opts.RequireRecipientValidSince == zeroof("time.Time"))
+//@     invariant @C11 notify: (itvisited("NOTIFY") ==> notifyIs(opts.Notify, args["NOTIFY"]) && notifySetOK(opts.Notify)) && (!itvisited("NOTIFY") ==> len(opts.Notify) == 0)
+//@     invariant @C11 known: forall k: string :: itvisited(k) ==> k == "NOTIFY" || k == "ORCPT" || k == "RRVS"
+//@     invariant args != nil && (forall k: string :: itvisited(k) ==> has(args, k))
 //@     invariant @C12 only-enabled-extensions: len(opts.Notify) > 0 || opts.OriginalRecipient != "" || opts.OriginalRecipientType != "" ==> c.server.EnableDSN
 //@   loop 2:
 //@     invariant arrOf(notify) == 0 || !old(alloc(arrOf(notify)))
+//@     invariant arrOf(notify) != arrOf(resultof("strings.Split", 1, 1)) && len(resultof("strings.Split", 1, 1)) == splitLen(value, ",", -1) && (forall i :: 0 <= i && i < len(resultof("strings.Split", 1, 1)) ==> resultof("strings.Split", 1, 1)[i] == splitAt(value, ",", -1, i))
+//@     invariant @C11 notify-so-far: rangeindex + 1 <= len(resultof("strings.Split", 1, 1)) && len(notify) == rangeindex + 1 && (forall j :: 0 <= j && j < len(notify) ==> notify[j] == upperOf(splitAt(value, ",", -1, j)))
 
 // Parser entry points as seen by the handlers (their own obligations: section "parsing")
 //@ contract (*parser).parseReversePath(p) (s, err)
@@ -251,9 +276,17 @@ package smtp
 //@ contract checkNotifySet(values) (err)
 //@   prop C11 C14 C15 C19
 //@   ensures @C11,C15,C14 only-the-four-keywords: err == nil ==> len(values) >= 1 && (forall j :: 0 <= j && j < len(values) ==> values[j] == "NEVER" || values[j] == "DELAY" || values[j] == "FAILURE" || values[j] == "SUCCESS")
+//@   ensures @C11 no-keyword-twice: err == nil ==> (forall i :: forall j :: 0 <= i && i < j && j < len(values) ==> values[i] != values[j])
+//@   ensures @C11 never-stands-alone: err == nil ==> (forall j :: 0 <= j && j < len(values) && values[j] == "NEVER" ==> len(values) == 1)
 //@   loop 1:
 //@     invariant seen != nil && !wasalloc(seen) && rangeindex < len(values)
+//@     invariant @C11 seen-tracks-the-prefix: len(seen) == rangeindex + 1 && (forall j :: 0 <= j && j <= rangeindex ==> has(seen, values[j]))
+//@     invariant @C11 no-keyword-twice-so-far: forall i :: forall j :: 0 <= i && i < j && j <= rangeindex ==> values[i] != values[j]
 //@     invariant forall j :: 0 <= j && j <= rangeindex ==> values[j] == "NEVER" || values[j] == "DELAY" || values[j] == "FAILURE" || values[j] == "SUCCESS"
+
+//@ contract decodeTypedAddress(val) (t, addr, err)
+//@   prop C11 C14
+//@   ensures @C11,C14 typed-address-decoded-or-refused: (err == nil) == taOK(val) && (err == nil ==> t == taType(val) && addr == taAddr(val)) && (err != nil ==> t == "" && addr == "")
 
 //@ contract parseArgs(s) (argMap, err)
 //@   prop C11 C19
@@ -360,6 +393,7 @@ package smtp
 //@   ensures @C05 chunk-consumed: c.text.R.pos == old(c.text.R.pos) + size || c.text.R.iofail
 //@   ensures @C19 limit-restored: c.lineLimitReader.LineLimit == c.server.MaxLineLength
 //@   ensures c.text.R.pos >= old(c.text.R.pos)
+//@   before io.Copy: @C05,C19 no-line-limit-on-chunk-octets: c.lineLimitReader.LineLimit == 0
 
 //@ contract (*Conn).handleBdat(c, arg)
 //@   prop C03 C04 C05 C06 C07 C08 C19
@@ -372,6 +406,7 @@ package smtp
 //@   recv 2: @C13 status-of-the-recipient-being-answered: $ch == c.bdatStatus.status[rangeindex + 1]
 //@   before (*io.PipeWriter).Close: @C07,C05 clean-eof-only-after-complete-last-chunk: last && lrOf(chunk).N == 0
 //@   ensures inv: connInv(c)
+//@   before io.Copy: @C05,C19 no-line-limit-on-chunk-octets: c.lineLimitReader.LineLimit == 0
 //@   ensures @C19,C05 line-limit-restored: c.lineLimitReader.LineLimit == c.server.MaxLineLength && c.lineLimitReader == old(c.lineLimitReader)
 //@   ensures @C05 framing: bdatDeclaredOK(arg) ==> c.text.R.pos == old(c.text.R.pos) + bdatDeclared(arg) || c.text.R.iofail
 //@   ensures @C05 nothing-read-for-malformed-command: !bdatDeclaredOK(arg) ==> c.text.R.pos == old(c.text.R.pos)
@@ -546,6 +581,7 @@ package smtp
 //@ contract isPrintableASCII(val) (ok)
 //@   prop C11 C14 C15
 //@   ensures @C15,C14 printable-means-line-safe: ok ==> noCRLF(val) && printableASCII(val)
+//@   ensures @C11,C14 not-printable-is-refused: !ok ==> !printableASCII(val)
 //@   loop 1:
 //@     invariant 0 <= itpos() && itpos() <= len(val) && (forall k :: 0 <= k && k < itpos() ==> val[k] >= 32 && val[k] <= 126)
 
